@@ -51,6 +51,13 @@ feature kern { pos g h -12; } kern;"""}
     # class kerning + contextual substitution, disjoint characters
     S["K"] = {"kind": "ttf", "shapes": "mixed", "glyphs": ["r", "s", "t", "w"], "coef": 6,
               "fea": "languagesystem DFLT dflt; @L=[r s]; @R=[t w]; feature kern { pos @L @R -44; pos r r 9; } kern; feature calt { sub r' s by t; sub [s t] w' by r; } calt;"}
+    # glyph names that look like the merger's own renaming scheme: 'a' and 'a.1' (characters o, i)
+    S["N"] = {"kind": "ttf", "shapes": "mixed", "glyphs": ["a", "a.1"], "coef": 7, "cmap": {ord("o"): "a", ord("i"): "a.1"},
+              "fea": "languagesystem DFLT dflt; feature kern { pos a a.1 -16; } kern;"}
+    # lookups that no feature references, in front of the used ones (GSUB and GPOS)
+    S["U"] = {"kind": "ttf", "shapes": "mixed", "glyphs": ["j", "k", "l"], "coef": 8,
+              "fea": "languagesystem DFLT dflt; lookup UNUSED { sub j by k; } UNUSED; lookup UNUSEDP { pos k l 9; } UNUSEDP; "
+                     "feature liga { sub j k by l; } liga; feature calt { sub k' l by j; } calt; feature kern { pos j l -13; pos l l 6; } kern;"}
     S["F"] = {"kind": "cff", "shapes": "mixed", "glyphs": ["a", "b"], "fea": "languagesystem DFLT dflt; feature kern { pos a b -31; } kern;"}
     S["G"] = {"kind": "cff", "shapes": "mixed", "glyphs": ["m", "n"], "coef": 2, "fea": "languagesystem DFLT dflt; feature kern { pos m n 17; } kern;"}
     return S
@@ -102,10 +109,10 @@ def describe(hbf, res):
 
 class Merge(Unit):
     name = "merge-lists"
-    rule = ("all ordered lists of 2..3 (thorough: 4 from the TrueType pool) fonts from the pool {A,B,C,D,E,H,M,K} (TrueType: disjoint, identical-duplicate, different-duplicate, no-layout, colliding glyph names, mark positioning + GDEF, class kerning + contextual substitution) and {F,G,X1,X2} (CFF) merged with Merger().merge; mixed flavours must raise; "
+    rule = ("all ordered lists of 2..3 (thorough: 4 from the TrueType pool) fonts from the pool {A,B,C,D,E,H,M,K} (TrueType: disjoint, identical-duplicate, different-duplicate, no-layout, colliding glyph names, mark positioning + GDEF, class kerning + contextual substitution) and {F,G,X1,X2} (CFF) merged with Merger().merge; plus N (glyph names 'a', 'a.1': the merger's own renaming scheme) and U (unreferenced lookups in front of the used ones) in every pair and in every triple with A; plus every ordered triple merged in two steps, merge(merge(X,Y),Z) (a merged font as input); mixed flavours must raise; "
             "oracle on the saved+reloaded result: every code point of the union maps to a glyph whose outline and advance equal those in the FIRST input supporting it; glyph names unique; for inputs whose character set is disjoint from all others in the list, every string of length <=3 over 4 of its characters shapes to glyphs with the same outlines/advances/offsets as with that input alone; distinct = each list")
     chunk = 4
-    required_witnesses = ("duplicate identical glyph", "duplicate different glyph", "glyph name collision", "disjoint shaping compared", "CFF merge", "mixed flavour rejected")
+    required_witnesses = ("duplicate identical glyph", "duplicate different glyph", "glyph name collision", "disjoint shaping compared", "CFF merge", "mixed flavour rejected", "merged font used as an input")
 
     def setup(self, tier, seed):
         load_pool()
@@ -116,6 +123,19 @@ class Merge(Unit):
         for n in (2, 3):
             for lst in itertools.permutations(tt, n):
                 yield list(lst)
+        # the two fonts built to collide with the merger's renaming / lookup pruning: every pair with
+        # every other font, and every triple with A (same glyph names) and one more
+        for x in ("N", "U"):
+            for y in tt + [z for z in ("N", "U") if z != x]:
+                yield [x, y]
+                yield [y, x]
+            for y in [t for t in tt if t != "A"]:
+                for lst in itertools.permutations([x, "A", y], 3):
+                    yield list(lst)
+        # merged fonts as inputs (histories): merge(merge(X, Y), Z) is observed like merge(X, Y, Z)
+        nest = ["A", "B", "D", "H", "K", "N", "U"] if tier == "quick" else tt + ["N", "U"]
+        for lst in itertools.permutations(nest, 3):
+            yield ["nested"] + list(lst)
         for n in (2, 3):
             for lst in itertools.permutations(cff, n):
                 if n == 3 and ("X1" in lst or "X2" in lst) and tier == "quick":
@@ -130,7 +150,8 @@ class Merge(Unit):
                 yield list(lst)
 
     def check(self, case, rec):
-        keys = case
+        nested = case[0] == "nested"
+        keys = case[1:] if nested else case
         kinds = {("cff" if k in ("F", "G", "X1", "X2") else "ttf") for k in keys}
         tmp = tempfile.mkdtemp(prefix="c18", dir=TMPROOT)
         try:
@@ -140,6 +161,13 @@ class Merge(Unit):
                 with open(p, "wb") as f:
                     f.write(_POOL[k])
                 paths.append(p)
+            if nested:
+                # first merge the first two, save, and use the result as the first input
+                first = merge.Merger().merge(paths[:2])
+                p01 = os.path.join(tmp, "m01.ttf")
+                first.save(p01)
+                paths = [p01] + paths[2:]
+                rec.witness("merged font used as an input")
             try:
                 merged = merge.Merger().merge(paths)
             except Exception as e:
